@@ -183,7 +183,14 @@ Definition is_read (o : sop) : bool :=
 
 (* x can be linearized next in state s *)
 Definition fits (s : sstate) (x : orec) (rest : list orec) : bool :=
-  minimal x rest && ret_eqb (snd (spec_step s (o_op x))) (o_ret x).
+  if minimal x rest then ret_eqb (snd (spec_step s (o_op x))) (o_ret x) else false.
+
+(* existsb with a lazy tail (vm_compute is call-by-value: `||` and `&&` would evaluate both sides) *)
+Fixpoint try_all {A} (f : A -> bool) (l : list A) : bool :=
+  match l with
+  | [] => false
+  | x :: r => if f x then true else try_all f r
+  end.
 
 Fixpoint lin_search (fuel : nat) (s : sstate) (h : list orec) : bool :=
   match h with
@@ -193,11 +200,12 @@ Fixpoint lin_search (fuel : nat) (s : sstate) (h : list orec) : bool :=
     | 0 => false
     | S f =>
       (* a minimal read that fits can be taken at once (it does not change the state) *)
-      match find (fun xr => is_read (o_op (fst xr)) && fits s (fst xr) (snd xr)) (picks [] h) with
+      match find (fun xr => if is_read (o_op (fst xr)) then fits s (fst xr) (snd xr) else false) (picks [] h) with
       | Some xr => lin_search f s (snd xr)
       | None =>
-          existsb (fun xr => fits s (fst xr) (snd xr) &&
-                             lin_search f (fst (spec_step s (o_op (fst xr)))) (snd xr)) (picks [] h)
+          try_all (fun xr => if fits s (fst xr) (snd xr)
+                             then lin_search f (fst (spec_step s (o_op (fst xr)))) (snd xr)
+                             else false) (picks [] h)
       end
     end
   end.
